@@ -880,6 +880,50 @@ def truetype_glyph_build_and_redraw(tier, rnd):
                     redraw_all(glyph, want, "%s.glyph(dropImpliedOnCurves=%s)" % (penname, drop), ops, hint=hint)
                 except Exception as e:
                     r.fail("%s build/redraw raised %s: %s on %s" % (penname, type(e).__name__, e, show(ops)))
+    # components that the pen has to decompose (the glyph mixes contours and components, or a scale does not
+    # fit F2Dot14), whose base glyph is itself a composite: the nested outlines must all arrive
+    for it in range(40 if tier == "quick" else 400):
+        base_ops = make_contour(rnd, ("L", "L", rnd.choice(("L", "Q1"))), True, False, "even")
+        other_ops = make_contour(rnd, ("L", "L", "L"), True, False, "even")
+        own = make_contour(rnd, ("L", "Q1", "L"), True, False, "even")
+        t_in = (1, 0, 0, 1, rnd.randint(-40, 40) * 2, rnd.randint(-40, 40) * 2)
+        t_in2 = (1, 0, 0, 1, rnd.randint(-40, 40) * 2, rnd.randint(-40, 40) * 2)
+        mode = ("mixed", "overflow", "mixed-deep")[it % 3]
+        t_out = (1, 0, 0, 1, rnd.randint(-40, 40) * 2, rnd.randint(-40, 40) * 2) if mode != "overflow" else (rnd.choice((3, 4, -3)), 0, 0, rnd.choice((3, 2)), 0, 0)
+        glyphs = {"base": _G(base_ops), "other": _G(other_ops),
+                  "mid": _G([("addComponent", ("base", t_in)), ("addComponent", ("other", t_in2))]),
+                  "deep": _G([("addComponent", ("mid", (1, 0, 0, 1, 10, -10)))])}
+        target = "deep" if mode == "mixed-deep" else "mid"
+        inner = mapped(canon(base_ops), apply_t(t_in)) + mapped(canon(other_ops), apply_t(t_in2))
+        if target == "deep":
+            inner = mapped(inner, apply_t((1, 0, 0, 1, 10, -10)))
+        want_c = (canon(own) if mode != "overflow" else []) + mapped(inner, apply_t(t_out))
+        want = normal(want_c, rotate=True, keep_points=False, force_closed=True)
+        for penname in ("TTGlyphPen", "TTGlyphPointPen"):
+            r.case(("nested-components", mode, penname))
+            try:
+                if penname == "TTGlyphPen":
+                    pen = TTGlyphPen(glyphs)
+                    if mode != "overflow":
+                        replay(own, pen)
+                    pen.addComponent(target, t_out)
+                else:
+                    pen = TTGlyphPointPen(glyphs)
+                    if mode != "overflow":
+                        replay(own, SegmentToPointPen(pen))
+                    pen.addComponent(target, t_out)
+                glyph = pen.glyph()
+                if glyph.isComposite():
+                    r.fail("%s: a glyph with %s was left composite" % (penname, mode))
+                    continue
+                rec = RecordingPen()
+                glyph.draw(rec, glyf)
+                got = normal(canon(rec.value), rotate=True, keep_points=False, force_closed=True)
+                if sorted(map(repr, got)) != sorted(map(repr, want)):
+                    r.fail("%s (%s): component %r %r of nested composite decomposes to %d contours %s, expected %d: %s"
+                           % (penname, mode, target, t_out, len(got), show(rec.value), len(want), show(explicit_ops(want_c))))
+            except Exception as e:
+                r.fail("%s with nested components (%s) raised %s: %s" % (penname, mode, type(e).__name__, e))
     # super-beziers through the glyph pens: same geometry, or an error - not a different curve
     for k in ("C3", "C4", "C5", "C6"):
         for _ in range(3 if tier == "quick" else 20):
